@@ -1,4 +1,120 @@
-import SynapModel.Ops
+import Proofs.AdjointNN
+import Proofs.Subgradient
+import Props.C13
+import Props.C16
+/-!
+# C02 — Backward of every nn op / layer / loss yields the exact vector-Jacobian product
+
+Same notions as C01 (`IsAdjoint`, `PointwiseVJP`, subgradient form at kinks and ties).
+Linear / bilinear ops over any commutative ring (field for the averaging ops), pointwise
+activations over ℝ with `HasDerivAt`.  Row-coupled nonlinear ops (softmax, log_softmax,
+cross-entropy, BCE, BCE-with-logits, batch-norm in training mode) are modelled and corresponded
+only — see `unproved_ops` in the evidence.
+-/
 namespace Props.C02
-theorem placeholder : True := trivial
+open Synap Synap.NDArray Synap.Np Synap.Kernels Proofs.Adjoint Proofs.Core Proofs.Calc Proofs.Subgrad
+
+variable {R : Type} [CommRing R]
+
+/-! ### activations (pointwise, diagonal Jacobian; kink = subgradient) -/
+theorem relu_vjp : PointwiseVJP reluForward reluBackward (fun x => max 0 x) (fun x => if 0 < x then 1 else 0) (fun x => x ≠ 0) :=
+  Proofs.Calc.relu_vjp
+
+theorem relu_kink_subgradient (y : ℝ) : max 0 y ≥ max 0 (0 : ℝ) + (0 : ℝ) * (y - 0) ∧ (indPos (0 : ℝ) = 0) :=
+  relu_subgradient_at_kink y
+
+/-- leaky relu with *any* slope (also > 1 and negative) -/
+theorem leaky_relu_vjp (s : ℝ) : PointwiseVJP (fun a => leakyReluForward a s) (fun g a => leakyReluBackward g a s)
+    (fun x => if 0 < x then x else s * x) (fun x => if 0 < x then 1 else s) (fun x => x ≠ 0) :=
+  Proofs.Calc.leaky_relu_vjp s
+
+theorem selu_vjp : PointwiseVJP (fun a => seluForward a seluAlpha seluScale) (fun g a => seluBackward g a seluAlpha seluScale)
+    (fun x => (seluScale : ℝ) * (if 0 < x then x else (seluAlpha : ℝ) * (Real.exp x - 1)))
+    (fun x => (seluScale : ℝ) * (if 0 < x then 1 else (seluAlpha : ℝ) * Real.exp x)) (fun x => x ≠ 0) :=
+  Proofs.Calc.selu_vjp
+
+theorem tanh_vjp : PointwiseVJP tanhForward (fun g a => tanhBackward g (tanhForward a)) Real.tanh (fun x => 1 - Real.tanh x ^ 2)
+    (fun _ => True) := Proofs.Calc.tanh_vjp
+
+theorem sigmoid_vjp : PointwiseVJP sigmoidForward (fun g a => sigmoidBackward g (sigmoidForward a))
+    (fun x => 1 / (1 + Real.exp (-x))) (fun x => (1 / (1 + Real.exp (-x))) * (1 - 1 / (1 + Real.exp (-x)))) (fun _ => True) :=
+  Proofs.Calc.sigmoid_vjp
+
+/-! ### linear, losses -/
+theorem linear_vjp (x w y : NDArray R) (hx : x.WF) (hw : w.WF) (h : linearForward x w none = some y) :
+    IsAdjoint (R := R) x.shape y.shape (fun v => linearForward v w none) (fun g => (linearBackward g x w none).map (·.1)) ∧
+    IsAdjoint (R := R) w.shape y.shape (fun v => linearForward x v none) (fun g => (linearBackward g x w none).map (·.2.1)) :=
+  ⟨linear_adj_x x w y hx hw h, linear_adj_w x w y hx hw h⟩
+
+theorem linear_bias_vjp (x w b y : NDArray R) (hx : x.WF) (hw : w.WF) (hb : b.WF) (h : linearForward x w (some b) = some y)
+    (hx2 : x.shape.length = 2) (hw2 : w.shape.length = 2) :
+    IsAdjoint (R := R) b.shape y.shape (fun v => linearForward (zeros x.shape) w (some v))
+      (fun g => (linearBackward g x w (some b)).bind (·.2.2)) :=
+  linear_adj_b x w b y hx hw hb h hx2 hw2
+
+/-- MSE: both arguments receive their gradient (the loss is symmetric up to sign) -/
+theorem mse_vjp (p t g : NDArray ℝ) (hp : p.WF) (ht : t.WF) (hg : g.WF) (hs : t.shape = p.shape) (hgs : g.shape = p.shape) :
+    (∀ a b : ℝ, HasDerivAt (fun x => (x - b) * (x - b)) (2 * (a - b)) a ∧ HasDerivAt (fun x => (a - x) * (a - x)) (-(2 * (a - b))) b) ∧
+    ∃ y, mseForward p t = some y ∧ y.shape = p.shape ∧
+      (mseBackward g p t).1.shape = p.shape ∧ (mseBackward g p t).2.shape = p.shape ∧
+      ∀ i, validIdx p.shape i →
+        y.get i = (p.get i - t.get i) * (p.get i - t.get i) ∧
+        (mseBackward g p t).1.get i = g.get i * (2 * (p.get i - t.get i)) ∧
+        (mseBackward g p t).2.get i = g.get i * (-(2 * (p.get i - t.get i))) :=
+  Proofs.Adjoint.mse_vjp p t g hp ht hg hs hgs
+
+theorem nll_vjp (p y : NDArray R) (labels : List Nat) (hp : p.WF) (h : nllForward p labels = some y) :
+    IsAdjoint (R := R) p.shape y.shape (fun v => nllForward v labels) (fun g => some (nllBackward g p labels)) :=
+  nll_adj p y labels hp h
+
+/-! ### convolution (input, weight, bias) and average pooling, every geometry with a window -/
+theorem conv1d_vjp (x w y : NDArray R) (s p d : Nat) (hx : x.WF) (hw : w.WF) (h : conv1dForward x w none s p d = some y) :
+    IsAdjoint (R := R) x.shape y.shape (fun v => conv1dForward v w none s p d) (fun g => (conv1dBackward g x w false s p d).map (·.1)) ∧
+    IsAdjoint (R := R) w.shape y.shape (fun v => conv1dForward x v none s p d) (fun g => (conv1dBackward g x w false s p d).map (·.2.1)) :=
+  ⟨conv1d_adj_x x w y s p d hx hw h, conv1d_adj_w x w y s p d hx hw h⟩
+
+theorem conv1d_bias_vjp (x w b y : NDArray R) (s p d : Nat) (hx : x.WF) (hw : w.WF) (hb : b.WF) (hb1 : b.shape.length = 1)
+    (h : conv1dForward x w (some b) s p d = some y) :
+    IsAdjoint (R := R) b.shape y.shape (fun v => conv1dForward (zeros x.shape) w (some v) s p d)
+      (fun g => (conv1dBackward g x w true s p d).bind (·.2.2)) :=
+  conv1d_adj_b x w b y s p d hx hw hb hb1 h
+
+theorem conv2d_vjp (x w y : NDArray R) (s p d : Nat × Nat) (hx : x.WF) (hw : w.WF) (h : conv2dForward x w none s p d = some y) :
+    IsAdjoint (R := R) x.shape y.shape (fun v => conv2dForward v w none s p d) (fun g => (conv2dBackward g x w false s p d).map (·.1)) ∧
+    IsAdjoint (R := R) w.shape y.shape (fun v => conv2dForward x v none s p d) (fun g => (conv2dBackward g x w false s p d).map (·.2.1)) :=
+  ⟨conv2d_adj_x x w y s p d hx hw h, conv2d_adj_w x w y s p d hx hw h⟩
+
+theorem avgpool_vjp {K : Type} [Field K] (x y : NDArray K) (k s p d : Nat) (hx : x.WF) (h : avgPool1dForward x k s p d = some y) :
+    IsAdjoint (R := K) x.shape y.shape (fun v => avgPool1dForward v k s p d) (fun g => avgPool1dBackward g x k s p d) :=
+  avgpool1d_adj x y k s p d hx h
+
+theorem avgpool2d_vjp {K : Type} [Field K] (x y : NDArray K) (k s p d : Nat × Nat) (hx : x.WF) (h : avgPool2dForward x k s p d = some y) :
+    IsAdjoint (R := K) x.shape y.shape (fun v => avgPool2dForward v k s p d) (fun g => avgPool2dBackward g x k s p d) :=
+  avgpool2d_adj x y k s p d hx h
+
+/-! ### max pooling: subgradient at ties -/
+theorem maxpool_vjp_subgradient {K : Type} [Field K] [LinearOrder K] [IsStrictOrderedRing K]
+    (x g b : NDArray K) (k s p d : Nat) (n c l lo : Nat) (hx : x.shape = [n, c, l])
+    (hlo : convOut l k s p d = some lo) (hb : maxPool1dBackward g x k s p d = some b) :
+    b.shape = [n, c, l] ∧ ∀ bn cc q, bn < n → cc < c → q < l →
+      b.get [bn, cc, q] = ((List.range lo).map (fun t =>
+        let pos := (List.range k).map (fun a => winPos l s p d t a)
+        match firstMax (pos.map (fun o => o.map (fun q' => x.get [bn, cc, q']))) with
+        | some (_, a) => if pos.getD a none = some q then g.get [bn, cc, t] else 0
+        | none => 0)).sum :=
+  maxpool1d_backward_masked x g b k s p d n c l lo hx hlo hb
+
+/-! ### unfold / fold and dropout: transposes of each other / of the same mask -/
+theorem unfold_fold_vjp (g : ConvTools.Geom) (x y : NDArray R) (hx : x.WF) (hs : x.shape = [g.n, g.c, g.h, g.w])
+    (lh lw : Nat) (ho : g.out = some (lh, lw)) (hy : y.WF) (hys : y.shape = [g.n, g.rows, lh * lw])
+    (hk : 0 < g.k.1 ∧ 0 < g.k.2) :
+    ∃ u v, ConvTools.im2colSpec g x 0 = some u ∧ ConvTools.col2imSpec g y = some v ∧ dot u y = dot x v :=
+  Props.C16.col2im_adjoint_of_im2col g x y hx hs lh lw ho hy hys hk
+
+theorem dropout_vjp {K : Type} [Field K] [LinearOrder K] [IsStrictOrderedRing K] (p : K) (vs gs us : List K)
+    (h1 : vs.length = us.length) (h2 : gs.length = us.length) :
+    (List.zipWith (· * ·) (Synap.Layers.dropout p true vs us) gs).sum
+      = (List.zipWith (· * ·) vs (Synap.Layers.dropoutBackward p gs us)).sum :=
+  Props.C13.dropout_backward_same_mask p vs gs us h1 h2
+
 end Props.C02
